@@ -8,6 +8,7 @@ package core
 
 import (
 	"context"
+	"encoding/json"
 	"errors"
 	"os"
 	"runtime/trace"
@@ -26,11 +27,13 @@ var (
 	vdPartial     PartialVdrKillReport
 	vdForceSet    bool
 	vdForceVal    bool
+	vdKilledForks []*Fork // forks whose final kill ran (vdrKill / vdrKillSome(done))
 )
 
 //verif:stub (*github.com/martian-lang/martian/martian/core.Fork).vdrKill
 func vdVdrKill(self *Fork, partial *PartialVdrKillReport) *VDRKillReport {
 	vdFullKill++
+	vdKilledForks = append(vdKilledForks, self)
 	vdKillNil = partial == nil
 	return &VDRKillReport{}
 }
@@ -39,6 +42,7 @@ func vdVdrKill(self *Fork, partial *PartialVdrKillReport) *VDRKillReport {
 func vdVdrKillSome(self *Fork, partial *PartialVdrKillReport, done bool) (*VDRKillReport, bool) {
 	if done {
 		vdSomeDone++
+		vdKilledForks = append(vdKilledForks, self)
 	} else {
 		vdSomePartial++
 	}
@@ -521,4 +525,190 @@ func H_C04_realKeepAlive(which int) {
 			}
 		}
 	}
+}
+
+
+// ---- the per-node sweep: every fork of a mapped call is swept ----
+
+type vdFileInfo struct{ os.FileInfo }
+
+func (vdFileInfo) Mode() os.FileMode { return os.ModeDir | 0o755 }
+
+//verif:stub os.Lstat
+func vdLstat(name string) (os.FileInfo, error) { return vdFileInfo{}, nil }
+
+const vdSweepSrc = `
+filetype txt;
+
+stage N(
+    in  int x,
+    out txt t,
+    src comp "bin",
+)
+
+stage USE(
+    in  txt[] ts,
+    out int   o,
+    src comp  "bin",
+)
+
+pipeline P(
+    out int o,
+)
+{
+    map call N(
+        x = split [
+            1,
+            2,
+            3,
+        ],
+    )
+
+    call USE(
+        ts = N.t,
+    )
+
+    return (
+        o = USE.o,
+    )
+}
+
+call P()
+`
+
+type vdSweep struct {
+	ps     *Pipestance
+	n, use *Node
+}
+
+func vdSweepGraph() *vdSweep {
+	disableUniquification = false
+	return verifCached("vdSweepGraph", func() any {
+		rt := vsRuntime()
+		rt.Config.VdrMode = VdrRolling
+		rt.overrides = &PipestanceOverrides{}
+		_, _, ps, err := rt.instantiatePipeline([]byte(vdSweepSrc), "/m/p.mro", "ps", "/ps", nil, "none", nil, false, true, context.Background())
+		if err != nil {
+			panic("fixture does not instantiate: " + err.Error())
+		}
+		return &vdSweep{ps, ps.node.top.allNodes["ID.ps.P.N"], ps.node.top.allNodes["ID.ps.P.USE"]}
+	}).(*vdSweep)
+}
+
+// H_C14_nodeSweep: Node.vdrKill (the per-node body of the rolling sweep and of
+// the final Pipestance.VDRKill) on a call mapped over three elements, the
+// forks and the consumer in arbitrary coarse states.
+//
+//	C14: every fork that may be reclaimed (complete, its consumer done) is
+//	     swept by this one call, whatever state its sibling forks are in; the
+//	     node reports done only if every fork is.
+//	C04: a fork is not finally killed while the consumer of its file is
+//	     unfinished.
+func H_C14_nodeSweep() {
+	w := vdSweepGraph()
+	vdFullKill, vdSomeDone, vdSomePartial, vdKillNil, vdPhases, vdKilledForks = 0, 0, 0, false, nil, nil
+	vdAlready, vdPartialNil, vdForceSet, vdForceVal = false, true, false, false
+	verifAssert(len(w.n.forks) == 3, "C03: three forks")
+	for i, f := range w.n.forks {
+		vdCoarse(f, "N"+string(rune('0'+i)))
+	}
+	vdCoarse(w.use.forks[0], "USE")
+	useDone := vdNodeDone(w.use)
+	var st [3]MetadataState
+	for i, f := range w.n.forks {
+		st[i] = f.getState()
+	}
+	_, allDone := w.n.vdrKill()
+	verifCover("node swept")
+	killed := func(f *Fork) bool {
+		for _, k := range vdKilledForks {
+			if k == f {
+				return true
+			}
+		}
+		return false
+	}
+	every := true
+	for i, f := range w.n.forks {
+		if st[i] == Complete && useDone {
+			verifCover("reclaimable fork")
+			verifAssert(killed(f), "C14: every reclaimable fork of a mapped call is swept, whatever its siblings are doing")
+		}
+		if st[i] == Complete && !useDone {
+			verifAssert(!killed(f), "C04: a fork is not finally killed while the consumer of its file output is unfinished")
+		}
+		if !(killed(f) || st[i] == DisabledState) {
+			every = false
+		}
+	}
+	if allDone {
+		verifAssert(every, "C14: the node reports its sweep done only when every fork was swept")
+	}
+}
+
+// H_C14_nullSibling: a call mapped over three elements produces a file output
+// consumed by USE.  Some forks produced no file (their output is null, so the
+// runtime drops the argument from their keep-alive relation:
+// removeEmptyFileArgs); the consumer then finishes.
+//
+//	C14: once the consumer is done, every fork that did produce the file
+//	     releases it and is fully reclaimed — also when a sibling fork produced
+//	     none.
+//	C04: until the consumer is done every fork that produced the file keeps it
+//	     held, whatever its siblings produced.
+func H_C14_nullSibling() {
+	w := vdSweepGraph()
+	vdFullKill, vdSomeDone, vdSomePartial, vdKillNil, vdPhases, vdKilledForks = 0, 0, 0, false, nil, nil
+	vdAlready, vdPartialNil, vdForceSet, vdForceVal = false, true, false, false
+	var isNull [3]bool
+	for i, f := range w.n.forks {
+		f.metadata.contents[CompleteFile] = struct{}{}
+		isNull[i] = verifBool("fork produced no file")
+		if isNull[i] {
+			f.removeEmptyFileArgs(LazyArgumentMap{"t": json.RawMessage("null")})
+		} else {
+			f.removeEmptyFileArgs(LazyArgumentMap{"t": json.RawMessage(`"/ps/P/N/fork` + string(rune('0'+i)) + `/files/t.txt"`)})
+		}
+	}
+	has := func(f *Fork, n Nodable) bool {
+		_, ok := f.fileArgs["t"][n]
+		return ok
+	}
+	for i, f := range w.n.forks {
+		if !isNull[i] {
+			verifAssert(has(f, w.use), "C04: a fork that produced the file keeps it held for its unfinished consumer, whatever its siblings produced")
+		}
+	}
+	// the consumer finishes; the sweep runs
+	w.use.forks[0].metadata.contents[CompleteFile] = struct{}{}
+	w.n.vdrKill()
+	verifCover("swept after null sibling")
+	for i, f := range w.n.forks {
+		if !isNull[i] {
+			verifCover("fork with a file")
+			_, held := f.fileArgs["t"]
+			verifAssert(!held, "C14: once its consumer is done a file output is released in every fork, also when a sibling fork produced no file")
+			killed := false
+			for _, k := range vdKilledForks {
+				killed = killed || k == f
+			}
+			verifAssert(killed, "C14: the fork is then fully reclaimed")
+		}
+	}
+}
+
+// reference decoder for the one shape used above: a plain JSON string
+//
+//verif:stub encoding/json.Unmarshal
+func vdUnmarshal(data []byte, v any) error {
+	if p, ok := v.(*string); ok && len(data) >= 2 && data[0] == '"' && data[len(data)-1] == '"' {
+		for _, c := range data[1 : len(data)-1] {
+			if c == '\\' || c == '"' || c < 0x20 {
+				panic("json model: only plain strings")
+			}
+		}
+		*p = string(data[1 : len(data)-1])
+		return nil
+	}
+	panic("json model: unsupported Unmarshal target")
 }
